@@ -337,6 +337,18 @@ class Schema:
                 raise Unsupported("vector arity")
             inner = f"(.vec {self.desc(args[0], scope)})"
             return inner if (head == "vector" or bare_mod) else f"(.boxed {STD_TAGS['vector']} {inner})"
+        if head in ("dictionary", "Dictionary") and "dictionary" in self.combs:
+            # `dictionary {t:Type} %(Vector %(DictionaryField t)) = Dictionary t`: one anonymous field. The generators treat
+            # it as a builtin (no object of its own in TL2; in TL1 a constructor with one field is that field), so it is
+            # translated to the field itself.
+            c = self.combs["dictionary"]
+            if len(args) != 1 or len(c.fields) != 1 or c.fields[0][0] is not None or c.fields[0][1] is not None:
+                raise Unsupported("dictionary is not the one-anonymous-field builtin")
+            targ = self.desc(args[0], scope)
+            if ".var" in targ:
+                raise Unsupported("dictionary of a type that depends on a nat variable")
+            inner = self.desc(c.fields[0][2], {"types": {c.tparams[0][0]: targ}, "nats": {}})
+            return inner if (head == "dictionary" or bare_mod) else f"(.boxed {self.tag_of(c)} {inner})"
         if head in ("tuple", "Tuple"):
             if len(args) != 2:
                 raise Unsupported("tuple arity")
@@ -360,6 +372,35 @@ class Schema:
         for c in reversed(cs):
             alts = f"(.cons {self.tag_of(c)} {self.ctor_desc(c, args, scope)} {alts})"
         return f"(.union {alts})"
+
+    # -- TL2: float/double as a *direct* field is outside the modelled TL2 fragment (absent iff == 0 drops -0.0)
+    def has_direct_float(self, name, seen=None):
+        seen = set() if seen is None else seen
+
+        def walk(ast, direct):
+            if ast[0] != "t":
+                return ast[0] == "rep" and walk(ast[2], False)
+            head, args = ast[1], ast[2]
+            if head in ("float", "double", "Float", "Double"):
+                return direct
+            if head in ("vector", "Vector"):
+                return any(walk(a, False) for a in args if a[0] == "t")
+            if head in ("tuple", "Tuple"):
+                return any(walk(a, False) for a in args if a[0] != "nat")
+            if any(walk(a, True) for a in args if a[0] == "t"):   # type arguments end up as direct fields (dictionary values …)
+                return True
+            cs = [self.combs[head]] if head in self.combs else self.types.get(head, [])
+            return any(comb(c) for c in cs)
+
+        def comb(c):
+            if c.name in seen:
+                return False
+            seen.add(c.name)
+            return any(walk(ty, True) for (_, _, ty) in c.fields)
+
+        if name in self.combs:
+            return comb(self.combs[name])
+        return any(comb(c) for c in self.types.get(name, []))
 
     # -- top level
     def translate(self, item_names):
@@ -400,11 +441,14 @@ class Schema:
 
 
 def generate(schemas, items, max_bucket):
-    """schemas: {schema name: [tl texts]}; items: [(schema, name, tag)]. returns (lean_text, support_text, coverage)"""
+    """schemas: {schema name: [tl texts]}; items: [(schema, name, tag[, has_tl2])]. returns (lean_text, support_text, coverage)"""
+    tl2_items = {(it[0], it[1]) for it in items if len(it) > 3 and it[3]}
+    items = [(it[0], it[1], it[2]) for it in items]
     out = ["/- GENERATED by tools/tl2lean.py from the .tl files of /repo and the generated Go factories. Do not edit. -/",
            "import SH.Model.TL", "namespace SH.Gen.C14", "open SH.TL", "",
            f"def maxUncompressedBucketSize : Nat := {max_bucket}", ""]
-    table, rtable, support, cov = [], [], [], {"unsupported": {}, "translated": 0, "results": 0, "items": len(items)}
+    table, rtable, t2table, support = [], [], [], []
+    cov = {"unsupported": {}, "translated": 0, "results": 0, "items": len(items), "tl2_items": len(tl2_items), "tl2_float_fields": []}
     for sname in sorted(schemas):
         names = [n for (s, n, t) in items if s == sname]
         tags = {n: t for (s, n, t) in items if s == sname}
@@ -417,6 +461,12 @@ def generate(schemas, items, max_bucket):
             out.append(f"def {const} : Desc := {d}")
             table.append(f'  ("{sname}/{name}", {tag}, {"true" if is_union else "false"}, {const})')
             support.append(f"desc {sname}/{name}")
+            if (sname, name) in tl2_items:
+                if sch.has_direct_float(name):
+                    cov["tl2_float_fields"].append(f"{sname}/{name}")
+                else:
+                    t2table.append(f'  ("{sname}/{name}", {const})')
+                    support.append(f"tl2 {sname}/{name}")
         for (name, rd) in results:
             const = "r_" + lname(sname + "_" + name)
             out.append(f"def {const} : Desc := {rd}")
@@ -438,6 +488,11 @@ def generate(schemas, items, max_bucket):
     out.append("/-- function name ↦ descriptor of its (boxed) result, in the environment of the function's `#` fields -/")
     out.append("def results : List (String × Desc) := [")
     out.append(",\n".join(rtable))
+    out.append("]")
+    out.append("")
+    out.append("/-- the types the generator produced TL2 code for (and that have no float/double as a direct field) -/")
+    out.append("def tl2table : List (String × Desc) := [")
+    out.append(",\n".join(t2table))
     out.append("]")
     out.append("")
     out.append("end SH.Gen.C14")
